@@ -99,6 +99,47 @@ def det4(m):
 # ---- extraction
 
 
+def _concrete(e, env, module, fn, depth=0):
+    """Value of an integer expression of the code under analysis for concrete inputs (Python semantics of //, %, /, int,
+    round - ties to even -, max, min, abs; calls of simple functions of the same module are executed)."""
+    import operator
+
+    if depth > 4:
+        raise AnalysisError("duffy rule: Gauss order expression nests too deep")
+    if isinstance(e, ast.Constant) and isinstance(e.value, (int, float)):
+        return e.value
+    if isinstance(e, ast.Name):
+        if e.id in env:
+            return env[e.id]
+        raise AnalysisError("duffy rule: Gauss order depends on `%s`" % e.id)
+    if isinstance(e, ast.UnaryOp) and isinstance(e.op, ast.USub):
+        return -_concrete(e.operand, env, module, fn, depth)
+    ops = {ast.Add: operator.add, ast.Sub: operator.sub, ast.Mult: operator.mul, ast.Div: operator.truediv, ast.FloorDiv: operator.floordiv, ast.Mod: operator.mod, ast.Pow: operator.pow}
+    if isinstance(e, ast.BinOp) and type(e.op) in ops:
+        return ops[type(e.op)](_concrete(e.left, env, module, fn, depth), _concrete(e.right, env, module, fn, depth))
+    if isinstance(e, ast.Call) and isinstance(e.func, ast.Name) and not e.keywords:
+        args = [_concrete(a, env, module, fn, depth) for a in e.args]
+        if e.func.id in ("int", "round", "max", "min", "abs", "float"):
+            return {"int": int, "round": round, "max": max, "min": min, "abs": abs, "float": float}[e.func.id](*args)
+        if e.func.id in module.functions:
+            g = module.functions[e.func.id]
+            loc = dict(zip([a.arg for a in g.args.args], args))
+            for st in g.body:
+                if isinstance(st, ast.Expr) and isinstance(st.value, ast.Constant):
+                    continue
+                if isinstance(st, ast.Assign) and len(st.targets) == 1 and isinstance(st.targets[0], ast.Name):
+                    loc[st.targets[0].id] = _concrete(st.value, loc, module, g, depth + 1)
+                elif isinstance(st, ast.Return) and st.value is not None:
+                    return _concrete(st.value, loc, module, g, depth + 1)
+                else:
+                    raise AnalysisError("duffy rule: helper %s is not straight-line" % g.name)
+    if isinstance(e, ast.Call) and isinstance(e.func, ast.Attribute) and ast.unparse(e.func) in ("math.ceil", "math.floor", "_np.ceil", "_np.floor", "np.ceil", "np.floor") and len(e.args) == 1:
+        import math
+
+        return (math.ceil if e.func.attr == "ceil" else math.floor)(_concrete(e.args[0], env, module, fn, depth))
+    raise AnalysisError("duffy rule: Gauss order expression `%s` is not evaluated" % ast.unparse(e)[:60])
+
+
 class Wrong(AnalysisError):
     """The rule was read completely and is not a Duffy-type tensor-Gauss rule for a reason the text states (the same
     array returned for both point sets, no points built for an adjacency, both points taken from one tensor index, a
@@ -155,6 +196,21 @@ def extract(ctx, adjacency):
                     gname = a.asname or a.name
     if gname is None:
         raise AnalysisError("duffy_galerkin.rule no longer imports the Gauss rule")
+    # which 1-D Gauss rule is requested: when the argument is not the order itself (a conversion helper, arithmetic on
+    # the order), it is evaluated by the checker for every order 2..30 with Python's integer / rounding semantics; the
+    # Duffy rule of order n is built on the n-point Gauss rule (that is what gives 6/5/2 * n^4 points and exactness up
+    # to degree 2n-4)
+    for c in ast.walk(fn):
+        if isinstance(c, ast.Call) and isinstance(c.func, ast.Name) and c.func.id == gname and len(c.args) == 1 and not (isinstance(c.args[0], ast.Name) and c.args[0].id == params[0]):
+            bad = []
+            for n in range(2, 31):
+                got = _concrete(c.args[0], {params[0]: n}, m, fn)
+                if got != n:
+                    bad.append((n, got))
+            if bad:
+                raise Wrong("the 1-D Gauss rule requested for order n is `%s` = %s for n = %s: the rule of order n must be built on the n-point Gauss rule (its advertised point count and its exactness degree 2n-4 depend on it)" % (
+                    ast.unparse(c.args[0])[:60], ", ".join(str(g) for _, g in bad[:6]), ", ".join(str(n_) for n_, _ in bad[:6])))
+            c.args[0] = ast.copy_location(ast.Name(id=params[0], ctx=ast.Load()), c.args[0])
     env = {params[0]: order_atom, params[1]: adjacency, gname: gauss_rule}
     # the locals by role: the returned triple is (test points, trial points, weights) by position - that is what callers
     # unpack; the slot counter is the name advanced by one inside the point loops
